@@ -32,6 +32,23 @@ type Node struct {
 	Next *Node
 }
 
+// Meta is embedded (by value and by pointer) to exercise promoted fields.
+type Meta struct {
+	ID    float64
+	Label string
+}
+
+type Emb struct {
+	Meta
+	Name string
+	Kids []EmbP
+}
+
+type EmbP struct {
+	*Meta
+	Score float64
+}
+
 func leafVals() []Leaf {
 	return []Leaf{{"x", 1, true}, {"", 0, false}}
 }
@@ -214,6 +231,78 @@ func checkC18(r *harness.Run) harness.Coverage {
 			}
 		}
 	})
+	// embedded structs (promoted fields) and same-named struct types with different layouts searched with
+	// ONE compiled expression (a per-expression field cache must key on the full type)
+	var extraPairs int64
+	{
+		m1, m2 := Meta{7, "x"}, Meta{8, ""}
+		embDocs := []interface{}{
+			Emb{Meta: m1, Name: "n", Kids: []EmbP{{&m1, 2}, {nil, 0}, {&m2, 1}}},
+			&Emb{Meta: m2, Name: "", Kids: []EmbP{}},
+			struct {
+				Name string
+				ID   float64
+			}{"p", 1},
+			struct {
+				ID   float64
+				Name string
+			}{2, "q"},
+			struct {
+				Label string
+				Name  string
+				ID    float64
+			}{"l", "r", 3},
+			&struct {
+				ID    float64
+				Label string
+			}{4, "m"},
+			map[string]interface{}{"Name": "generic", "ID": 5.0},
+			struct {
+				Name string
+				ID   float64
+			}{"again", 6},
+		}
+		// (expression on the Go value, expression on the generic twin): lower-case spellings must find the
+		// same field; access *through the name of the embedded struct* is not part of the JSON form and is left out
+		embExprs := [][2]string{}
+		for _, e := range []string{"ID", "Name", "Label", "Kids[*].ID", "Kids[*].Label", "Kids[?Score > `1`].Label", "Kids[?ID].Score", "ID || Name", "[ID, Name, Label]", "{i: ID, n: Name}", "Kids[0].ID", "Kids[1].ID", "Kids[-1].Label",
+			"length(Kids)", "Kids[].ID", "Kids[*].[ID, Score]", "not_null(ID, Name)", "Kids[::-1][*].ID", "Kids[1]", "Kids[1].[ID]", "Kids[*].Score"} {
+			embExprs = append(embExprs, [2]string{e, e}, [2]string{lowerFirst(univ.Lx(e)), e})
+		}
+		for _, pair := range embExprs {
+			text := pair[0]
+			jp, cerr, pn := impl.Compile(text)
+			if pn != nil || cerr != nil {
+				continue
+			}
+			for round := 0; round < 2; round++ { // the same compiled expression over all documents, twice
+				for di, d := range embDocs {
+					gen := generic(d)
+					if _, isMap := d.(map[string]interface{}); isMap && pair[0] != pair[1] {
+						continue // generic maps are matched by exact key; capitalisation applies to struct fields only
+					}
+					want, werr, wpn := impl.SearchOnce(pair[1], gen)
+					got, gerr, gpn := impl.Search(jp, d)
+					extraPairs++
+					if wpn != nil {
+						continue
+					}
+					ok := gpn == nil && (gerr != nil) == (werr != nil) && (gerr != nil || model.DeepEqual(generic(got), generic(want)))
+					if !ok {
+						kind, sig := "wrong-value", "struct-navigation:"+text
+						if gpn != nil {
+							kind, sig = "panic", "search-panic:"+gpn.Site+":"+gpn.Class
+						}
+						js, _ := json.Marshal(d)
+						r.Report(harness.Violation{Kind: kind, Signature: sig,
+							Input:    map[string]interface{}{"expression": text, "document_go_type": fmt.Sprintf("%T", d), "document_json": string(js), "position_in_sequence": round*len(embDocs) + di, "note": "one compiled expression searched over documents of several struct types in sequence"},
+							Expected: show(want, werr, nil) + " (result on the equivalent generic JSON document)", Observed: show(got, gerr, gpn)})
+						break
+					}
+				}
+			}
+		}
+	}
 	// no-panic half: every built-in on every typed field
 	var calls int64
 	fields := []string{"@", "Name", "L", "P", "Ls", "Ps", "Strs", "Nums", "Next", "Ls[0]", "Ps[0]", "L.N", "Nums[0]"}
@@ -255,6 +344,7 @@ func checkC18(r *harness.Run) harness.Coverage {
 			}
 		}
 	})
+	r.Note("embedded_and_mixed_type_pairs", extraPairs)
 	r.Evaluations = pairs*4 + calls
 	r.Traces = pairs*3 + calls
 	r.States = pairs
